@@ -380,6 +380,9 @@ impl G {
                 let et = self.elem_type();
                 let it = self.iter_expr(&et, d);
                 let e = self.fresh("e");
+                // over a literally empty array the element type is `!`, which the checker does not accept where an
+                // int is required (e.g. as an index): such a loop variable is not offered to the expression generators
+                let et = if it.to_string().contains("\"es\":[]") { t("never") } else { et };
                 self.env.push((e.clone(), et));
                 let body = self.body(d, 2);
                 self.env.pop();
@@ -512,6 +515,7 @@ impl G {
             2 => {
                 let e = self.fresh("e");
                 let it = self.iter_expr(&tint(), d);
+                if it.to_string().contains("\"es\":[]") { return vec![mark(self.next_mark())]; }
                 let (m1, m2) = (mark(self.next_mark()), mark(self.next_mark()));
                 let lim = int([0, 1, 2, 3][self.rng.below(4)]);
                 vec![json!({"k": "for", "n": e, "e": it, "b": block(vec![
@@ -586,7 +590,9 @@ impl G {
             7 => {
                 let e = self.int_expr(d);
                 let (m1, m2, m3) = (mark(self.next_mark()), mark(self.next_mark()), mark(self.next_mark()));
-                let e2 = self.int_expr(1);
+                // (a later candidate of a value arm may never be evaluated: keep it total — making a closure folds its
+                // body, and a failing constant there is raised when the closure is made, DESIGN 12.5)
+                let e2 = if ints.is_empty() { int(4) } else { var(&self.pick(&ints)) };
                 vec![json!({"k": "match", "e": e, "arms": [
                     {"k": "val", "vs": [int(1), e2], "b": block(vec![m1])},
                     {"k": "val", "vs": [int(2), int(3)], "b": block(vec![m2])},
